@@ -28,6 +28,8 @@ def run(ck, models, tier, ws):
 
 def run_one(ck, tm, tier, ws):
     hm = mac.get(ws, tm.facts, tier)
+    from . import roles
+    vtypes = roles.verifier_types(tm.facts)
     arms = hmod_arms(hm)
     ck.floor("R8.1", "fake-arms-enumerated", len(arms), 52)
     for l in hm.lints:
@@ -80,7 +82,7 @@ def run_one(ck, tm, tier, ws):
                     rec = e
             if v.status == "returned" and isinstance(v.ret, Tup):
                 for x in v.ret.elems:
-                    if isinstance(x, Adt) and x.path.endswith("CallCountVerifier"):
+                    if isinstance(x, Adt) and any(x.path.split("::")[-1] == vt.split("::")[-1] for vt in vtypes):
                         ver = x
         tstr, tkind, tjson = type_of_name(rec.args[1]) if rec else (None, None, None)
         ok4b = tkind == "fnptr" and tjson is not None and tjson["abi"].strip('"') == abi and tjson["unsafe"] == uns and \
@@ -90,7 +92,7 @@ def run_one(ck, tm, tier, ws):
               "arm declares %s; generated fn: abi=%s unsafe=%s; recorded type: %s; recorded pointer is the generated fn: %s" % (
                   o["kind"], ff["abi"] if ff else None, ff["unsafe"] if ff else None, tstr, okp))
         # R8.5 verifier kind
-        ck.ob("R8.5", "%s/verifier-kind" % key, tm.target, ver is not None and (ver.vname == "WithCount") == o["times"],
+        ck.ob("R8.5", "%s/verifier-kind" % key, tm.target, ver is not None and bool(ver.fields) == bool(o["times"]),
               "verifier %s for an arm %s `times`" % (ver.vname if ver else None, "with" if o["times"] else "without"))
         # R8.3 common meaning
         vs = hm.variants(fake)
